@@ -1425,10 +1425,23 @@ func (c *Compiler) compileSetItem(node *ast.Assign) error {
 			return c.formatError(fmt.Sprintf("unsupported compound assignment operator: %s", node.Operator()), node.Token().StartPosition)
 		}
 	} else {
-		// Simple assignment
+		// Simple assignment: the container, the index and the value are
+		// evaluated in the order in which they are written. StoreSubscr
+		// wants the value below the other two, so they are swapped into
+		// that order afterwards
+		if err := c.compile(index.Left()); err != nil {
+			return err
+		}
+		if err := c.compile(index.Index()); err != nil {
+			return err
+		}
 		if err := c.compile(node.Value()); err != nil {
 			return err
 		}
+		c.emit(op.Swap, 2)
+		c.emit(op.Swap, 1)
+		c.emit(op.StoreSubscr)
+		return nil
 	}
 
 	// 4. Store the result back
@@ -1594,13 +1607,15 @@ func (c *Compiler) compileSetAttr(node *ast.SetAttr) error {
 		return nil
 	}
 
-	// Simple assignment
-	if err := c.compile(node.Value()); err != nil {
-		return err
-	}
+	// Simple assignment: the object is evaluated before the value, as it is
+	// written. StoreAttr wants the object on top
 	if err := c.compile(node.Object()); err != nil {
 		return err
 	}
+	if err := c.compile(node.Value()); err != nil {
+		return err
+	}
+	c.emit(op.Swap, 1)
 	idx := c.name(node.Name())
 	c.emit(op.StoreAttr, idx)
 	return nil
